@@ -22,6 +22,7 @@ class DenseTimeInterpreter(TimeInterpreter):
             var_object = data[1]
             if data[0] in self.ast.free_vars:
                 self.ast.var_object_dict[var_name] = var_object
+                self.ast.inputs[var_name] = var_object
 
     def is_dataset_valid(self, dataset):
         dataset_vars = set()
